@@ -4,24 +4,25 @@ import MakoModel.Cache.Examples
 
 Model: `MakoModel/Cache/Model.lean` (the generated wrapper of `write_cache_decorator`, `Cache._ctx_get_or_create`,
 `_get_cache_kw` with the `_def_regions` memo, `invalidate_*`, an abstract back end obeying the `CacheImpl` contract).
-Specification monitor: `MakoModel/Cache/Spec.lean` (`replay`, `evRuns`, `evReplay`, `evOwn`).
+Specification monitor: `MakoModel/Cache/Spec.lean` (`replay` and the five checks `evRuns`, `evReplay`, `evCreation`,
+`evFresh`, `evOwn`).  Side conditions on the regenerated constants (`Cache/Lemmas.lean`, `gen_*`, by `decide`) act through
+the build of this module: `gen_regen_ok`, `gen_prefix_slice`, `gen_key_attr_excluded`, `gen_key_attr_has_prefix`,
+`gen_merge_order`, `gen_defname_kw`, `gen_inv_body`, `gen_inv_def`, `gen_disabled_bypasses`, `gen_cache_id`, `gen_names`,
+`gen_inline_passes_buffered`, `gen_beaker_defines_set`, `gen_context_added_to_copy`, `gen_beaker_starttime`,
+`gen_block_result_written`.
 
 History-level theorems quantify over **every** world (back end, list of templates) and **every** history
 `List Op`; they are proved by induction over the history and over the call tree, through the invariants of
 `MakoModel/Cache/Invariants.lean`.  Local theorems quantify over every state (reachable or not), every
 section header, scope and body.
 
-Recorded defects (the model has them, as the code has):
+OPEN – recorded defects (the model has them, as the code has):
 * F5      cache id = module name = `re.sub(r"\W","_",uri)` is not injective  → `no_cross_template_service_*`
 * F17.1   an `invalidate_body/def/closure` issued before the callable's first render freezes the callable's
           `_def_regions` entry to the Template's `cache_args` alone                → `args_every_render_*`
 
 The `starttime` contract (entries older than the asking template's compile stamp are absent) is part of the model; it is
 what protects a template that replaces another one under the same cache id, see the section on `starttime` below.
-
-Repaired in /repo (the model follows, the full statements are proved):
-* F17.2   `write_inline_def` now hands its `buffered` flag to the decorator (ec9a6d2) → `cached_delivers_like_uncached`
-* F17.3   `BeakerCacheImpl` now defines `set` (b9a6f20)                             → `set_then_get`
 -/
 namespace MakoModel.C17
 open MakoModel.Cache MakoModel.Generated.Cache
@@ -324,6 +325,15 @@ entry.  The guard of `args_every_render_partial` is exactly "no such early inval
 theorem args_every_render_partial (w : World R) (hist : List Op)
     (hg : noEarlyInvalidation w (St.init w) hist = true) : MemoFromRender w (runHist w hist) :=
   runFrom_memo_late w hist _ hg (fun _ _ _ _ _ h => by simp [St.init, aGet] at h)
+
+/-- the same from any state whose `_def_regions` entries already are such arguments (e.g. the state after a guarded
+    history): the guard is evaluated from that state -/
+theorem args_every_render_partial_from (w : World R) (st : St R) (ops : List Op)
+    (hst : MemoFromRender w st) (hg : noEarlyInvalidation w st ops = true) : MemoFromRender w (runFrom w st ops) :=
+  runFrom_memo_late w ops st hg hst
+
+example : noEarlyInvalidation exWF (runHist exWF [.render 0 (ctx "1")]) [.invalidateDef 0 "f".toList, .render 0 (ctx "2")] = true := by
+  decide +kernel
 
 /-- the guard admits invalidations after the first render (and everything else) … -/
 example : noEarlyInvalidation exWF (St.init exWF)
